@@ -109,11 +109,13 @@ struct FailRec {
   char msg[600];
 };
 struct Shared {
-  enum { FAIL_CAP = 50, SAMPLE_CAP = 8 };
+  enum { FAIL_CAP = 50, PER_OP_CAP = 4, SAMPLE_CAP = 8 };  // per-algorithm cap: a flood from one cannot hide another
   long evaluations;         // judged cases
   long nontrivial;          // judged cases with length > 0 (all distinct: the enumeration has no repetition)
   long world_runs;          // executions of an algorithm (amc + reference + std)
   long by_op[OP_COUNT];
+  int cur_op;               // algorithm of the case being executed
+  int fails_by_op[OP_COUNT];
   long fail_total;
   int nfails;
   FailRec fails[FAIL_CAP];
@@ -134,7 +136,7 @@ __attribute__((format(printf, 2, 3)))
 inline void record_failure(const char *id, const char *fmt, ...) {
   Shared &s = *shared();
   ++s.fail_total;
-  if (s.nfails >= Shared::FAIL_CAP) return;
+  if (s.nfails >= Shared::FAIL_CAP || ++s.fails_by_op[s.cur_op] > Shared::PER_OP_CAP) return;
   FailRec &f = s.fails[s.nfails++];
   std::snprintf(f.id, sizeof f.id, "%s", id);
   va_list ap;
@@ -247,7 +249,14 @@ inline void explore(const Tuple &t, Runner amc, Runner ref, Runner sd) {
     case_id(id, sizeof id, t, k);
     std::memcpy(s.cur_id, id, sizeof id);
     s.cur_tuple = tuple_no;
+    s.cur_op = t.op;
     s.cur_k = k;
+    if (selected) {  // counted before execution: a case that kills the child was evaluated all the same
+      ++s.evaluations;
+      ++s.by_op[t.op];
+      if (t.n > 0) ++s.nontrivial;
+      if (s.nsamples < Shared::SAMPLE_CAP && (s.evaluations % 397 == 1 || c.filtered)) std::memcpy(s.samples[s.nsamples++], id, sizeof id);
+    }
     Obs a = amc(t.n, k);
     ++s.world_runs;
     if (k == 0) {
@@ -255,10 +264,6 @@ inline void explore(const Tuple &t, Runner amc, Runner ref, Runner sd) {
       if (c.filtered && c.f_k > E) E = c.f_k;  // replay of an index beyond E still runs (and says so)
     }
     if (!selected) continue;
-    ++s.evaluations;
-    ++s.by_op[t.op];
-    if (t.n > 0) ++s.nontrivial;
-    if (s.nsamples < Shared::SAMPLE_CAP && (s.evaluations % 1499 == 1 || c.filtered)) std::memcpy(s.samples[s.nsamples++], id, sizeof id);
     if (k > 0 && !a.threw) record_failure(id, "fault point %ld of %ld was armed but no exception came out of the call", k, E);
     judge_absolute(id, a, "amc");
     Obs r = ref(t.n, k);
